@@ -89,7 +89,8 @@ def gen_case(ctx, rng):
         p = {"x1": dq(0, 6), "x2": dq(0, 6), "y1": dq(0, 6), "y2": dq(0, 6)}
         loc = None
     return {"shape": kind, "params": p, "loc": loc, "data": data, "ranking": ranking, "_np_scalars": rng.random() < 0.25,
-            "_other_ctor_data": rng.random() < 0.35}
+            "_other_ctor_data": rng.random() < 0.35,
+            "_col_order": (rng.sample(["x", "y", "z", "f"], 4) if rng.random() < 0.5 else None)}
 
 
 def build_data(case):
@@ -99,7 +100,11 @@ def build_data(case):
         side = d["side"]
         return np.arange(d["rows"] * side * side, dtype=float).reshape(d["rows"], side * side)
     pts = d["pts"]
-    return pd.DataFrame({"x": [p[0] for p in pts], "y": [p[1] for p in pts], "z": [p[2] for p in pts], "f": [1.0] * len(pts)})
+    df = pd.DataFrame({"x": [p[0] for p in pts], "y": [p[1] for p in pts], "z": [p[2] for p in pts], "f": [1.0] * len(pts)})
+    order = case.get("_col_order")
+    if order:
+        df = df[order]          # the named columns may sit anywhere in the frame
+    return df
 
 
 def coords_of(case, s):
